@@ -111,3 +111,11 @@ func slabYs(edges []Edge) []*big.Rat {
 	}
 	return out
 }
+
+// (2 + ext/2^40)^2 as an exact rational string
+func r2Scaled(ext int64) string {
+	n := new(big.Int).Add(new(big.Int).Lsh(big.NewInt(1), 41), big.NewInt(ext))
+	n.Mul(n, n)
+	d := new(big.Int).Lsh(big.NewInt(1), 80)
+	return new(big.Rat).SetFrac(n, d).String()
+}
